@@ -23,10 +23,14 @@ const (
 )
 
 type c12State struct {
-	r      *fox.Router
-	behave func(c fox.Context)
-	clones []cloneRec
-	extra  int
+	redirRoute   bool
+	redirPattern string
+	redirParams  int
+	redirScope   fox.HandlerScope
+	r            *fox.Router
+	behave       func(c fox.Context)
+	clones       []cloneRec
+	extra        int
 }
 
 type cloneRec struct {
@@ -45,7 +49,17 @@ func SetupC12History() any {
 			st.behave(c)
 		}
 	}
-	r, err := fox.New(fox.WithNoRouteHandler(h), fox.WithNoMethodHandler(h), fox.WithOptionsHandler(h))
+	// a middleware in redirect scope: the redirect handler's context must not show anything of earlier requests
+	redirMW := func(next fox.HandlerFunc) fox.HandlerFunc {
+		return func(c fox.Context) {
+			st.redirRoute = c.Route() != nil
+			st.redirPattern = c.Pattern()
+			st.redirParams = len(collectParams(c))
+			st.redirScope = c.Scope()
+			next(c)
+		}
+	}
+	r, err := fox.New(fox.WithNoRouteHandler(h), fox.WithNoMethodHandler(h), fox.WithOptionsHandler(h), fox.WithMiddlewareFor(fox.RedirectHandler, redirMW))
 	if err != nil {
 		panic(err)
 	}
@@ -187,8 +201,11 @@ func HarnessC12History(st any) {
 			serveCapture(s.r, req)
 			sym.Assert(seen, "handler ran")
 		case shRedirect:
+			s.redirScope = 0
 			g, _ := serveCapture(s.r, req)
 			sym.Assert(len(g.finals) == 1 && g.finals[0] == 301, "redirected")
+			sym.Assert(s.redirScope == fox.RedirectHandler && !s.redirRoute && s.redirPattern == "" && s.redirParams == 0, "the redirect handler's context shows no route, pattern or parameters of any request")
+			sym.Cover("redirect handler context observed")
 		default:
 			_, esc := serveCapture(s.r, req)
 			sym.Assert(esc == nil && seen, "handler ran")
